@@ -737,3 +737,5 @@ def _run_connect_back(world: World, plan):
     return common.finish(world, accept != 'fast', sig)
 
 INFO['rule'] += " Round-5 additions: indirect outcome pierce_edge - the pierce is released in the exact instant of the library's own deadline timer (read from the loop's schedule), swept over 0..6 loop iterations, +-1 ns and +-3 ulps; either outcome passes, nothing may be left behind."
+
+INFO['rule'] += ' Round-6 additions: address with a port that does not fit 16 bits (bad_port) x every indirect outcome; a slow PeerInitializedEvent listener on the pierced connection while the other attempt wins or the caller gives up (slow_init).'
